@@ -7,7 +7,7 @@ package main
 //   <hostlen>  length of the client host name (> 30 makes the login record builder fail)
 //   <pwlen>    length of the password
 // reply tokens, in the order the server sends them (`|` ends a server message = EOM packet):
-//   la:<status> LOGINACK   dn:<status> DONE   msg:<id> MSG   pf:<types> PARAMFMT (types i=INT4 l=LONGBINARY v=VARCHAR)
+//   la:<status> LOGINACK   dn:<status> DONE   msg:<id> MSG   pf:<types> PARAMFMT (types i=INT4 l=LONGBINARY v=VARCHAR b=VARBINARY)
 //   pm:<vals>   PARAMS matching the preceding pf (i<v> int, k valid PEM key, kb garbage key, kt PEM key with
 //               trailing bytes, n<len> nonce of len bytes, e empty longbinary, v varchar "x")
 //   cap:ok | cap:zero CAPABILITY   eed  EED (non-info)   ot  RETURNSTATUS   env:<size> ENVCHANGE(PACKSIZE)
@@ -125,6 +125,8 @@ func buildReplies(toks []string) (msgs [][]byte, nonces [][]byte, capMask []byte
 					fs = append(fs, wFmt{datatype: 0xE1, fmtBytes: le32(0x7fffffff)})
 				case 'v':
 					fs = append(fs, wFmt{datatype: 0x27, fmtBytes: []byte{255}})
+				case 'b': // VARBINARY: the same bytes as LONGBINARY could carry, under a one-byte length
+					fs = append(fs, wFmt{datatype: 0x25, fmtBytes: []byte{255}})
 				default:
 					return nil, nil, nil, 0, false
 				}
@@ -169,6 +171,22 @@ func buildReplies(toks []string) (msgs [][]byte, nonces [][]byte, capMask []byte
 					data = append(data, append(le32(len(b)), b...))
 				case 'v':
 					data = append(data, []byte{1, 'x'})
+				case 'b':
+					var b []byte
+					switch {
+					case v == "bk":
+						b = pemKey
+					case strings.HasPrefix(v, "bn"):
+						n, _ := strconv.Atoi(v[2:])
+						b = make([]byte, n)
+						rand.Read(b)
+					default:
+						return nil, nil, nil, 0, false
+					}
+					if len(b) > 255 {
+						return nil, nil, nil, 0, false
+					}
+					data = append(data, append([]byte{byte(len(b))}, b...))
 				}
 			}
 			cur = append(cur, wParams(0xD7, data)...)
@@ -419,7 +437,7 @@ func loginImpl(line string) string {
 	return fmt.Sprintf("%s %d # %s", r.outcome, r.sent, verdict)
 }
 
-var loginEdits = []string{"la:5", "la:6", "la:7", "dn:0", "dn:2", "dn:1", "dn:16", "msg:35", "msg:31", "msg:1", "pf:ill", "pf:il", "pf:illl", "pf:lli", "pf:ivl",
+var loginEdits = []string{"la:5", "la:6", "la:7", "dn:0", "dn:2", "dn:1", "dn:16", "msg:35", "msg:31", "msg:1", "pf:ill", "pf:il", "pf:illl", "pf:lli", "pf:ivl", "pf:ibl", "pf:ilb", "pf:ibb",
 	"pm:i1,k,n16", "pm:i2,k,n16", "pm:i1,kb,n16", "pm:i1,kt,n16", "pm:i1,k,n0", "pm:i1,e,n16", "pm:i1,k,n60", "cap:ok", "cap:zero", "eed", "ot", "|"}
 
 func pmFor(pf string, rng *mrand.Rand) string {
@@ -436,6 +454,12 @@ func pmFor(pf string, rng *mrand.Rand) string {
 			}
 		case 'v':
 			vals = append(vals, "v")
+		case 'b':
+			if len(vals) == 1 {
+				vals = append(vals, "bk")
+			} else {
+				vals = append(vals, "bn16")
+			}
 		}
 	}
 	return "pm:" + strings.Join(vals, ",")
@@ -469,6 +493,8 @@ func fixScript(toks []string, rng *mrand.Rand) []string {
 						okv = okv && (v == "k" || v == "kb" || v == "kt" || v == "e" || strings.HasPrefix(v, "n"))
 					case 'v':
 						okv = okv && v == "v"
+					case 'b':
+						okv = okv && (v == "bk" || strings.HasPrefix(v, "bn"))
 					}
 				}
 			}
